@@ -69,7 +69,64 @@ def run(p: Project, tier: str) -> Result:
         check_classification(w, r)
         check_worker_registration(w, r)
         check_source_blocked(w, r)
+        check_stamp_is_clock(w, r)
     return r
+
+
+STAMPED = {'update_state': 1, 'update_state_rep': 0}
+
+
+def check_stamp_is_clock(w, r):
+    """R12: the time handed to update_state / update_state_rep is the simulation clock *as it is at the call* - not a duration (`node_setup_time`), not a
+    constant, not a clock value read before an earlier suspension.  A stamp that is not the current clock makes the component's own time run backwards
+    (or stand still) and books a negative or displaced interval."""
+    r.rule('C17.R12', 'the time argument of every state update is the current clock', 8)
+    sites = {}
+    for root, ps in w.roots.items():
+        for pa in ps:
+            if pa.raises:
+                continue
+            for e in pa.events:
+                if e.kind != 'call' or e.name not in STAMPED:
+                    continue
+                i = STAMPED[e.name]
+                a = e.args[i] if len(e.args) > i else None
+                key = site(e.fi, e.node, f'stamp:{e.name}')
+                rec = sites.setdefault(key, {'ok': True, 'e': e, 'pa': pa, 'why': ''})
+                if rec['ok'] and not (a is not None and a[0] == 'now' and a[1] == e.epoch):
+                    if a is not None and a[0] == 'now':
+                        why = 'a clock value read before an earlier suspension point (stale time)'
+                    else:
+                        why = f'`{short_val(a)}`, which is not the simulation clock'
+                    rec.update(ok=False, pa=pa, why=f'{e.name} is stamped with {why}: the component\'s own clock goes backwards or lags, and the interval it '
+                                                     f'books is negative or displaced')
+    # calls outside the explored process roots (classification helpers): the argument is self.env.now or a parameter handed through
+    for name, fi in sorted(w.methods.items()):
+        if name in w.roots or fi.cls != w.ci.name:
+            continue
+        params = {a.arg for a in fi.node.args.args}
+        for n in walk_no_nested(fi.node):
+            if isinstance(n, ast.Call) and isinstance(n.func, ast.Attribute) and n.func.attr in STAMPED and isinstance(n.func.value, ast.Name) and n.func.value.id == 'self':
+                i = STAMPED[n.func.attr]
+                a = n.args[i] if len(n.args) > i else None
+                key = site(fi, n, f'stamp:{n.func.attr}')
+                rec = sites.setdefault(key, {'ok': True, 'e': None, 'pa': None, 'why': '', 'fi': fi, 'line': n.lineno})
+                txt = ast.unparse(a).replace(' ', '') if a is not None else ''
+                if rec['ok'] and not (txt.endswith('env.now') or (isinstance(a, ast.Name) and a.id in params)):
+                    rec.update(ok=False, why=f'{n.func.attr} is stamped with `{txt}`, which is not the simulation clock')
+    for key, rec in sorted(sites.items()):
+        e = rec['e']
+        f_ = src(e.fi.module) if e is not None else src(rec['fi'].module)
+        ln = e.line if e is not None else rec['line']
+        if rec['ok']:
+            r.ok('C17.R12', key, 'stamped with env.now read at the call', f_, ln)
+        else:
+            r.fail('C17.R12', key, rec['why'], f_, ln, *([rec['pa'].describe()] if rec.get('pa') is not None else []))
+
+
+def short_val(v):
+    t = repr(v)
+    return t if len(t) < 70 else t[:67] + '...'
 
 
 def check_classification(w, r):
